@@ -178,10 +178,10 @@ def main():
     ft = []
     k = 0
     for P, A in ((2, [2, 2]), (2, [2, 3, 2]), (3, [2, 3]), (3, [2, 2, 2]), (4, [2, 2]), (4, [2, 2, 3]), (2, [3, 2, 2, 2])):
-        for temps in ([1.0], [0.4, 1.0], [0.1, 0.5, 1.0]):
+        for temps in ([1.0], [0.4, 1.0], [0.1, 0.5, 1.0], [0.0, 1.0]):      # 0.0: a flat chain (the likelihood has no weight)
             for cache in (-1, 0):
                 k += 1
-                if quick and k % 3:
+                if quick and k % 3 and not (temps[0] == 0.0 and k % 4 == 0):
                     continue
                 ft.append({"op": "fit_trace", "A": A, "P": P, "seed": ck.seed * 53 + k, "steps": 6 if quick else 25, "temps": temps,
                            "F": [0.0, 0.15][k % 2], "cache": cache})
